@@ -93,7 +93,7 @@ Definition unbounded_history (h : history) : bool :=
 (* every history must meet [pwf] (the hypothesis of the theorems about truncated logs); a history
    without bounded joins must meet [wf] *)
 Definition has_open (h : history) : bool :=
-  existsb (fun oo => match fst oo with OOpen _ _ _ _ _ _ => true | _ => false end) h.
+  existsb (fun oo => match fst oo with OOpen _ _ _ _ _ _ _ => true | _ => false end) h.
 (* ... and a history in which logs are re-opened over selections of entries must meet [owf] (POpen.v) *)
 Definition check_wf (h : history) : bool :=
   hashes_consistent (map fst h) && (owfb (map fst h) || foreign_open_from empty_sys (map fst h)) &&
